@@ -286,6 +286,54 @@ func c12Negatives() []*RejectCase {
 			out = append(out, &RejectCase{P: b.P, Class: c.class, Cell: cell})
 		}
 	}
+	// blank fields can be neither set nor read: "*" leaves them alone, naming them is an error
+	for _, v := range []string{"star", "star-two-blanks", "named-blank", "fieldsof-blank"} {
+		b := NewPB("fb_"+v, "app")
+		at, dt, ut := b.Carrier(0, "AT"), b.Carrier(0, "DT"), b.Carrier(0, "UT")
+		fa, fd, fu := b.Func(0, "NewAT", at, false, false), b.Func(0, "NewDT", dt, false, false), b.Func(0, "NewUT", ut, false, false)
+		fa.Stub, fd.Stub, fu.Stub = true, true, true
+		fields := []FieldT{{Name: "A", Ty: at}, {Name: "_", Ty: ut}, {Name: "D", Ty: dt}}
+		if v == "star-two-blanks" {
+			fields = append(fields, FieldT{Name: "_", Ty: ut})
+		}
+		sd := b.NamedOf(0, "WithBlank", StructOf(fields...), "none")
+		cell := "blank-field/" + v
+		b.P.Note = cell
+		switch v {
+		case "star", "star-two-blanks":
+			b.Inj("Init", sd, false, false, nil, refs(fa, fd, b.Struct(sd, true))...)
+			out = append(out, &RejectCase{P: b.P, Control: true, Cell: "control:" + cell})
+		case "named-blank":
+			b.Inj("Init", sd, false, false, nil, refs(fa, fu, b.Struct(sd, false, "A", "_"))...)
+			out = append(out, &RejectCase{P: b.P, Class: "bad-field", Cell: "negative:" + cell})
+		case "fieldsof-blank":
+			ps := b.Func(0, "NewWithBlank", sd, false, false)
+			ps.Stub = true
+			b.Inj("Init", ut, false, false, nil, refs(ps, b.Fields(sd, "_"))...)
+			out = append(out, &RejectCase{P: b.P, Class: "bad-field", Cell: "negative:" + cell})
+		}
+	}
+	// control: a field of a struct that lives in an internal package, reached through an exported
+	// alias of the neighbouring package — selecting a field needs no import of that package
+	for _, ptr := range []bool{false, true} {
+		b := NewPB(fmt.Sprintf("fc_internal_alias_%v", ptr), "app", "pa", "x")
+		b.P.Pkgs[2].Dir = "pa/internal/x"
+		xs := b.NamedOf(2, "S", StructOf(FieldT{Name: "F", Ty: Basic("int")}, FieldT{Name: "G", Ty: Basic("string")}), "none")
+		al := b.P.NewDecl(1, "S", xs, "")
+		al.Alias = true
+		as := Named(al)
+		var parent *Ty = as
+		if ptr {
+			parent = PtrTo(as)
+		}
+		nf := b.Func(1, "NewS", parent, false, false)
+		nf.Stub = true
+		res := Basic("int")
+		b.Inj("Init", res, false, false, nil, ItemRef(nf.ID), ItemRef(b.Fields(parent, "F").ID))
+		cell := fmt.Sprintf("control:field-of-internal-struct-through-alias/pointer=%v", ptr)
+		b.P.Note = cell
+		out = append(out, &RejectCase{P: b.P, Control: true, Cell: cell})
+	}
 	// a field promoted from an embedded struct is not a field of the outer struct
 	for _, viaFields := range []bool{false, true} {
 		for _, embPtr := range []bool{false, true} {
